@@ -209,7 +209,8 @@ pub fn execute(plan: &Plan, ctx: &mut Ctx) {
             });
             let _ = k;
         }
-        if code == "C" || code == "D" {
+        if (code == "C" || code == "D") && specs.iter().all(|s| matches!(s, DevSpec::Ext)) {
+            // (matching, operation) coverage is counted on pure terminal sets only
             ctx.cell("C09", &[nt as i64, matching_sig as i64, op_code_num(code), op.arg(0), op.arg(1)]);
         }
         let mut motor_before: Option<usize> = None;
